@@ -256,6 +256,33 @@ backward segment followed by `gts.Complement` and `gts.Reverse`) and concatenate
 its PIECES `Cli.locPieces` (`Gts/Lemmas/CliExtractFeat.lean`), each with its leaf, the offset of the
 leaf in the emitted record, its location and the K2 guard of the steps that made it. -/
 
+/-- the guard of the extract theorems below, from the harness's guard on the LOCATED regions: when
+every located region lies inside the record, so does every region extract emits — with and without
+`-v` (`extract_invert_cover`: the inverted regions are forward segments inside `[0, len]`) -/
+theorem extract_regs_within (locs : List (Seq → List Reg)) (invert : Bool) (s : Seq)
+    (hw : within s.len (many (locs.flatMap fun l => l s)))
+    (r : Reg) (hr : r ∈ Cli.extractRegs locs invert s) : within s.len r := by
+  unfold Cli.extractRegs at hr
+  cases invert with
+  | false =>
+    simp only [Bool.false_eq_true, if_false] at hr
+    have hm := (List.mem_filter.mp hr).1
+    rcases (Cli.mem_dedupRegs [] _ r).mp hm with h | h
+    · cases h
+    · exact (Cli.within_many_iff _ _).mp hw r h
+  | true =>
+    simp only [if_true] at hr
+    have hm := (List.mem_filter.mp hr).1
+    obtain ⟨he, hb, _⟩ := extract_invert_cover locs s hw
+    rw [he] at hm
+    obtain ⟨g, hg, rfl⟩ := List.mem_map.mp hm
+    have := hb g hg
+    intro x hx
+    simp only [leaves_seg, List.mem_singleton] at hx
+    subst hx
+    simp only
+    omega
+
 /-- **`gts extract`, the feature table of every emitted record** (region inside the record): up to
 the order `FeatureSlice.Insert` gives it, it consists of exactly the pieces of the input's
 features — one feature per input feature and overlapped leaf segment, nothing else. -/
@@ -473,6 +500,52 @@ theorem extract_features_residues_partial (s : Seq) (r : Reg) (hwr : within s.le
   rw [h4] at hq
   obtain ⟨p0, _, hb⟩ := Cli.segPull_back_some r p.key hk f.loc.den q (hden.1.subset hq)
   exact ⟨p0, hb, Cli.readAt_back r s hwr q p0 hb⟩
+
+/-- **`gts extract`, a forward segment that wraps around the origin of a circular record** (a head
+before position 0, e.g. from a modifier that extends a region to the left of the origin:
+`-L ≤ h < 0 ≤ t < h + L`): `Segment{h, t}.Locate` is `gts.Slice(seq, h + L, t)` in its wrap-around
+branch — `gts.Rotate(seq, -(h + L))` (C04, the re-origin), then the forward slice `[0, t - h)` —
+so, exactly as for the first piece of circular split, a feature whose ROTATED location overlaps the
+window is present with unchanged key and qualifiers and denotes exactly its former residues inside
+the window `h + L … L, 0 … t`, at their offset in the emitted record (`Cli.cwinMap`).  Guards: the
+domain of the `Normalize` law and K2 in no step (`Cli.cwinAbs`).  (Outside the harness domain, which
+keeps locators whose ends lie inside the record; a BACKWARD wrap-around segment and wrap-around
+parts of composite regions are not covered.) -/
+theorem extract_wrap_segment_feature_partial (s : Seq) (h t : Int) (hh : h < 0) (hL : -s.len ≤ h)
+    (ht0 : 0 ≤ t) (htw : t < h + s.len)
+    (f : Feature) (hf : f ∈ s.feats) (hwf : f.loc.wf = true) (hnn : f.loc.nonneg = true)
+    (hpos : ∀ p ∈ f.loc.den, 0 ≤ p.1 ∧ p.1 < s.len)
+    (hok : Loc.normOk s.len (f.loc.expand 0 (C04.rotN (-(h + s.len)) s.len)) = true)
+    (hov : (Cli.rotLoc f.loc (h + s.len) s.len).overlap 0 (s.len - (h + s.len) + t) = true)
+    (hg : Cli.cwinAbs s.len f.loc (h + s.len, t) = false) :
+    (seg h t).locate s = s.slice (h + s.len) t ∧
+    ∃ f' ∈ ((seg h t).locate s).feats, f'.key = f.key ∧ f'.props = f.props ∧
+      f'.loc.den ≼ filterMapPos (Cli.cwinMap s.len (h + s.len) t) f.loc.den := by
+  have e : (seg h t).locate s = s.slice (h + s.len) t := by
+    simp only [Reg.locate, show ¬ t < h by omega, if_false]
+    unfold Seq.slice
+    simp only [hh, if_true, show ¬ (h + s.len < 0) by omega, if_false]
+  refine ⟨e, ?_⟩
+  rw [e]
+  have hfw : ¬ (h + s.len ≤ t) := by omega
+  simp only [Cli.cwinAbs, if_neg hfw, Bool.or_eq_false_iff] at hg
+  obtain ⟨⟨⟨g1, g2⟩, g3⟩, g4⟩ := hg
+  have key := C03.slice_wrap_feature_partial s (h + s.len) t ht0 (by omega) (by omega) f hf hwf hnn
+    hok g1 g2 hov g3 g4
+  rw [Cli.wrap_remap_eq s.len (h + s.len) t ht0 (by omega) (by omega) _ hpos] at key
+  exact key
+
+/-- non-vacuity: `gene1` on the 12-residue record `s1`, the segment `(-3, 2)` (residues 9, 10, 11,
+0, 1): the gene's residues 10, 9 and 1 come out at 1, 0 and 4 -/
+example : gene1.loc.wf = true ∧ gene1.loc.nonneg = true ∧
+    (∀ p ∈ gene1.loc.den, 0 ≤ p.1 ∧ p.1 < s1.len) ∧
+    Loc.normOk s1.len (gene1.loc.expand 0 (C04.rotN (-(-3 + s1.len)) s1.len)) = true ∧
+    (Cli.rotLoc gene1.loc (-3 + s1.len) s1.len).overlap 0 (s1.len - (-3 + s1.len) + 2) = true ∧
+    Cli.cwinAbs s1.len gene1.loc (-3 + s1.len, 2) = false ∧
+    filterMapPos (Cli.cwinMap s1.len (-3 + s1.len) 2) gene1.loc.den = [(1, true), (0, true), (4, true)] ∧
+    (((seg (-3) 2).locate s1).feats.filter (·.key = "gene")).map (·.loc.den) =
+      [[(1, true), (0, true), (4, true)]] ∧
+    ((seg (-3) 2).locate s1).bytes = [67, 71, 84, 65, 67] := by decide
 
 /-! ### non-vacuity (extract) -/
 
